@@ -9,7 +9,7 @@ import itertools
 PROPERTY = "C11"
 LEVEL = "exploration"
 SHARDS = {"quick": 4, "thorough": 16}
-REQUIRED = ["ws-automaton", "call-model", "frame-accounting", "state-monotone", "denial-response", "overlapped-pairs", "websocket_session", "cancelled-receive"]
+REQUIRED = ["ws-automaton", "call-model", "frame-accounting", "state-monotone", "denial-response", "overlapped-pairs", "websocket_session", "cancelled-receive", "iterator-early-exit", "server-send-fails"]
 RULE = ("Exhaustive call sequences over 15 wrapper operations (accept, accept(subprotocol), receive, receive_text, receive_bytes, one step of "
         "iter_text / iter_bytes, send_text, send_bytes, close, close(code), raw send of accept / send / close / foreign type) of length <=4 "
         "(thorough <=5) x every server script (connect; 0-3 frames text/bytes/both-keys; disconnect at every position or never), plus "
@@ -72,7 +72,13 @@ def step(coro):
     return "blocked", y
 
 
-def run_scenario(ctx, calls, script_tag, events, overlap=None):
+def injected(e):
+    return isinstance(e, OSError) and "verif: injected" in str(e)
+
+
+def run_scenario(ctx, calls, script_tag, events, overlap=None, send_fail=None):
+    """send_fail = n: the server's send() raises OSError for the n-th forwarded event (the transport is gone). The event
+    counts as forwarded (the wrapper had updated its state before awaiting the server); the caller sees the OSError."""
     """overlap = i: calls[i] is suspended inside the server's send() while calls[i+1] runs to completion, then resumed.
     The wrapper updates its state before awaiting the server, so the model is the sequential one for [.., c_i, c_i+1, ..]."""
     from baize.asgi import WebSocket, WebSocketDisconnect
@@ -98,6 +104,8 @@ def run_scenario(ctx, calls, script_tag, events, overlap=None):
 
     async def send(m):
         forwarded.append(m)
+        if send_fail is not None and len(forwarded) - 1 == send_fail:
+            raise OSError("verif: injected send failure")
         if suspend_next_send[0]:
             suspend_next_send[0] = False
             in_send[0] = True
@@ -110,7 +118,7 @@ def run_scenario(ctx, calls, script_tag, events, overlap=None):
     gens = {}
     returned_frames = []      # payloads handed to the application, in order
     consumed_frames = []      # data frames taken from the server, in order
-    case = {"calls": list(calls), "overlap_at": overlap, "script": [e.get("type", "")[10:] + ("/" + ("text" if e.get("text") is not None else "bytes") if "receive" in e.get("type", "") else "") for e in events], "disconnect": script_tag}
+    case = {"calls": list(calls), "overlap_at": overlap, "server_send_fails_at": send_fail, "script": [e.get("type", "")[10:] + ("/" + ("text" if e.get("text") is not None else "bytes") if "receive" in e.get("type", "") else "") for e in events], "disconnect": script_tag}
     prev_states = (0, 0)
 
     def V(key, detail=""):
@@ -205,6 +213,10 @@ def run_scenario(ctx, calls, script_tag, events, overlap=None):
         plan.append((i, call, kind, val, forwarded[fw0:], served[cur0:cursor[0]], False, (ws.client_state.name, ws.application_state.name)))
         i += 1
         if kind == "blocked":
+            if not isinstance(val, Never):
+                # the call waits for something of its own making (a task, a future, a sleep): the hand-driven stepper cannot
+                # follow it, so nothing after this point is judged here -- the event-loop scenarios cover such code
+                ctx.count("call-suspended-on-something-other-than-the-server")
             break
 
     for idx, call, kind, val, new_fw, took, overlapped, st_after in plan:
@@ -212,7 +224,9 @@ def run_scenario(ctx, calls, script_tag, events, overlap=None):
         if kind == "blocked":
             ctx.count("scenario-ended-blocked")
             break
-        raised = kind == "exc"
+        raised = kind == "exc" and not (send_fail is not None and injected(val) and new_fw)  # the server's own failure, passed through
+        if kind == "exc" and send_fail is not None and injected(val):
+            ctx.count("server-send-failure-passed-through")
         # ------------------------------------------------ sends
         if call in ("send_text", "send_bytes", "raw_accept", "raw_send", "raw_close", "raw_bogus", "close", "close_code",
                     "accept", "accept_sub"):
@@ -519,6 +533,99 @@ def cancelled_receive(ctx, variant, how, nframes, disconnect):
         ctx.violation("cancelled-receive|orphan-task-left-pending", case, str(out["pending"]))
 
 
+def iter_early_exit(ctx, kind, nframes, k, then, body_awaits):
+    """`async for` over iter_text()/iter_bytes() is left after k frames (the loop body may await something), then the
+    application goes on reading with another call: every frame must still come out exactly once, in order, the
+    disconnect must be seen, at most one server receive() may be outstanding at a time, no task may be left behind."""
+    import asyncio
+
+    from baize import asgi
+    from vf import drivers
+    lp = drivers.VLoop(max_iterations=100_000)
+    out = {"max_outstanding": 0}
+    key = "text" if kind == "iter_text" else "bytes"
+
+    async def main():
+        q = asyncio.Queue()
+        outstanding = [0]
+
+        async def receive():
+            outstanding[0] += 1
+            out["max_outstanding"] = max(out["max_outstanding"], outstanding[0])
+            try:
+                return await q.get()
+            finally:
+                outstanding[0] -= 1
+
+        async def send(m):
+            pass
+        ws = asgi.WebSocket({"type": "websocket", "headers": [], "path": "/", "query_string": b""}, receive, send)
+        frames = [{"type": "websocket.receive", key: (f"f{i}" if key == "text" else b"f%d" % i)} for i in range(nframes)]
+        await q.put({"type": "websocket.connect"})
+        for f in frames:
+            await q.put(f)
+        await q.put({"type": "websocket.disconnect", "code": 1001})
+        await ws.accept()
+        got = []
+        if k > 0:
+            async for x in getattr(ws, kind)():
+                got.append(x)
+                if body_awaits:
+                    await asyncio.sleep(0.1)
+                if len(got) >= k:
+                    break
+        disc = None
+        try:
+            if then == "iter":
+                async for x in getattr(ws, kind)():
+                    got.append(x)
+                    if body_awaits:
+                        await asyncio.sleep(0.1)
+                disc = "stopped"
+            else:
+                call = ws.receive_text if key == "text" else ws.receive_bytes
+                while True:
+                    if then == "typed":
+                        got.append(await asyncio.wait_for(call(), 5.0))
+                    else:
+                        m = await asyncio.wait_for(ws.receive(), 5.0)
+                        if m["type"] == "websocket.disconnect":
+                            disc = "message"
+                            break
+                        got.append(m[key])
+        except asgi.WebSocketDisconnect:
+            disc = "raised"
+        out["got"], out["want"], out["disc"], out["state"] = got, [f[key] for f in frames], disc, ws.client_state.name
+        for _ in range(3):
+            await asyncio.sleep(0)
+        out["pending"] = len([t for t in asyncio.all_tasks() if t is not asyncio.current_task() and not t.done()])
+    case = {"scenario": "iterator left early, reading continues", "iterator": kind, "frames": nframes, "left_after": k, "then": then, "body_awaits": body_awaits}
+    ctx.mon("iterator-early-exit")
+    try:
+        lp.run_until_complete(asyncio.wait_for(main(), 1000))
+    except asyncio.TimeoutError:
+        ctx.violation("iterator-early-exit|later-receive-never-returns", case, repr(out))
+        return
+    except Exception as e:
+        ctx.violation(f"iterator-early-exit|{type(e).__name__}", case, repr(e)[:200])
+        return
+    finally:
+        try:
+            for t in asyncio.all_tasks(lp):
+                t.cancel()
+        except Exception:
+            pass
+        lp.close()
+    if out["got"] != out["want"]:
+        ctx.violation("iterator-early-exit|frames-lost-or-reordered", case, f"{out['got']!r} vs {out['want']!r}")
+    if out["disc"] is None or out["state"] != "DISCONNECTED":
+        ctx.violation("iterator-early-exit|disconnect-not-seen", case, repr(out))
+    if out["max_outstanding"] > 1:
+        ctx.violation("iterator-early-exit|two-server-receives-outstanding", case, str(out["max_outstanding"]))
+    if out.get("pending"):
+        ctx.violation("iterator-early-exit|orphan-task-left-pending", case, str(out["pending"]))
+
+
 def denial(ctx, rng):
     """WebsocketDenialResponse / request_response on a websocket scope"""
     from baize import asgi
@@ -589,6 +696,20 @@ def run(ctx):
                     ctx.mon("overlapped-pairs")
                     ctx.case_enum(True)
     ctx.sample("overlapped", {"calls": ["accept", "close", "send_text"], "overlap_at": 1, "script": ["websocket.receive"]})
+    # the server's send() fails for the n-th forwarded event (broken transport): states must still only move forward, close stays
+    # idempotent, nothing may be forwarded after a close that was attempted
+    for n in range(1, omax + 1):
+        for calls in itertools.product(CALLS, repeat=n):
+            idx += 1
+            if not ctx.mine(idx):
+                continue
+            if not any(c in ("accept", "accept_sub", "raw_accept", "close", "close_code", "raw_close", "send_text", "send_bytes", "raw_send") for c in calls):
+                continue
+            for sf in range(0, min(n, 3)):
+                for tag, events in SCRIPTS[::4]:
+                    run_scenario(ctx, calls, tag, events, send_fail=sf)
+                    ctx.mon("server-send-fails")
+                    ctx.case_enum(True)
     ctx.exhaustive = True
     ctx.extra["exhaustive_bound"] = f"all call sequences of length <= {full} over {len(CALLS)} operations x {len(SCRIPTS)} server scripts"
     # one more level over a sample of scripts
@@ -621,6 +742,13 @@ def run(ctx):
                         cancelled_receive(ctx, variant, how, nframes, disconnect)
                         ctx.case_enum(True)
         ctx.sample("cancelled-receive", {"call": "receive_text", "how": "timeout", "frames": 3, "disconnect": True})
+        for kind in ("iter_text", "iter_bytes"):
+            for nframes in (1, 2, 4):
+                for k in range(0, nframes + 1):
+                    for then in ("typed", "raw", "iter"):
+                        for body_awaits in (False, True):
+                            iter_early_exit(ctx, kind, nframes, k, then, body_awaits)
+                            ctx.case_enum(0 < k < nframes)
         # http scope through the websocket shortcut -> 404
         from baize import asgi
         from vf import drivers
@@ -634,11 +762,16 @@ def run(ctx):
         ctx.mon("denial-response", 0)
         ctx.mon("websocket_session", 0)
         ctx.mon("cancelled-receive", 0)
+        ctx.mon("iterator-early-exit", 0)
 
 
 def replay(ctx, case):
     if case.get("scenario", "").startswith("pending receive cancelled"):
         cancelled_receive(ctx, case["call"], case["how"], case["frames"], case["disconnect"])
+        ctx.case(1)
+        return
+    if case.get("scenario", "").startswith("iterator left early"):
+        iter_early_exit(ctx, case["iterator"], case["frames"], case["left_after"], case["then"], case["body_awaits"])
         ctx.case(1)
         return
     if case.get("shortcut") == "websocket_session":
@@ -654,7 +787,7 @@ def replay(ctx, case):
     for tag, events in SCRIPTS:
         sig = [e.get("type", "")[10:] + ("/" + ("text" if e.get("text") is not None else "bytes") if "receive" in e.get("type", "") else "") for e in events]
         if sig == case["script"] and str(tag) == str(case["disconnect"]):
-            run_scenario(ctx, case["calls"], tag, events, overlap=case.get("overlap_at"))
+            run_scenario(ctx, case["calls"], tag, events, overlap=case.get("overlap_at"), send_fail=case.get("server_send_fails_at"))
             ctx.case(1)
             return
     print("script not found")
